@@ -3,7 +3,7 @@
    norm used by the Newton model (Model/Newton.v: norm_inf at NCplx F) -- package C15 (and the callee of C17's vector
    solvers).  The source reads self.vec[i] a second time inside the `if`; the model reads it once. *)
 From Coq Require Import List Arith ZArith Lia Bool.
-From OV Require Import Base.Panic Base.Arith Model.Complex Model.Vector Model.Newton gen.SrcPrelude gen.SrcVecCmplx Proofs.SrcEqBase.
+From OV Require Import Base.Panic Base.Arith Model.Complex Model.Vector Model.Matrix Model.Tridiag Model.Newton gen.SrcPrelude gen.SrcVecCmplx Proofs.SrcEqBase.
 Import ListNotations.
 
 Section SrcEqVecCmplx.
@@ -35,11 +35,17 @@ Proof.
   destruct (ltb r (sqrt (abs_sqr z))); reflexivity.
 Qed.
 
+(* Tridiagonal::<Complex<T>>::conj: the three diagonals through Vector::conj, n unchanged *)
+Lemma src_tconj (t : tridiag CA) :
+  s_tconj t = Ok (@mkT CA (vconj (tsub t)) (vconj (tmain t)) (vconj (tsup t)) (tn t)).
+Proof. reflexivity. Qed.
+
 Definition model_is_source_VecCmplx : Prop :=
   (forall v : list TC, s_vconj v = Ok (vconj v)) /\
   (forall v : list TC, s_vreal v = Ok (vreal v)) /\
-  (forall v : list TC, s_cnorm_inf v = Newton.norm_inf (NCplx F) v).
+  (forall v : list TC, s_cnorm_inf v = Newton.norm_inf (NCplx F) v) /\
+  (forall t : tridiag CA, s_tconj t = Ok (@mkT CA (vconj (tsub t)) (vconj (tmain t)) (vconj (tsup t)) (tn t))).
 Lemma model_is_source_VecCmplx_lemma : model_is_source_VecCmplx.
-Proof. exact (Coq.Init.Logic.conj src_vconj (Coq.Init.Logic.conj src_vreal src_cnorm_inf)). Qed.
+Proof. exact (Coq.Init.Logic.conj src_vconj (Coq.Init.Logic.conj src_vreal (Coq.Init.Logic.conj src_cnorm_inf src_tconj))). Qed.
 
 End SrcEqVecCmplx.
